@@ -17,9 +17,38 @@ def _names(pairs):
     return sorted([str(a[0]), str(b[0])] for a, b in pairs)
 
 
+class _CallClock:
+    """Virtual clock for self_collision.detect*: every narrow-phase call it makes (gjk.gjk_intersection, looked up on the
+    gjk package at call time) runs with both colliders' support functions counted; budget per collider and call."""
+
+    def __init__(self, budget):
+        from dsim.worlds.K_exec import Clock
+        self.calls = 0
+        self.max_evals = 0
+        self.orig = gjk.gjk_intersection
+        outer = self
+
+        def gjk_intersection(c1, c2, *a, **k):
+            clk = Clock(budget)
+            clk.wrap(c1, "a")
+            clk.wrap(c2, "b")
+            try:
+                return outer.orig(c1, c2, *a, **k)
+            finally:
+                clk.release()
+                outer.calls += 1
+                outer.max_evals = max([outer.max_evals] + list(clk.counts.values()))
+
+        gjk.gjk_intersection = gjk_intersection
+
+    def release(self):
+        gjk.gjk_intersection = self.orig
+
+
 class Exec:
     def __init__(self, cfg):
         self.b = {}
+        self.budget = int(cfg.get("support_budget", 0)) or None
 
     def close(self):
         self.b.clear()
@@ -141,13 +170,21 @@ class Exec:
             return {"pairs": [[str(a[0]), str(b[0])] for a, b in pairs], "payload_ok": bool(ok),
                     "state": self._state(e), "state_o": self._state(e2)}
         if k in ("detect", "detect_any"):
-            if k == "detect":
-                res = self_collision.detect(bvh)
-                out = {"contacts": {str(f): bool(v) for f, v in res.items()}}
-            else:
-                out = {"any": bool(self_collision.detect_any(bvh))}
+            clock = _CallClock(self.budget) if self.budget else None
+            try:
+                if k == "detect":
+                    res = self_collision.detect(bvh)
+                    out = {"contacts": {str(f): bool(v) for f, v in res.items()}}
+                else:
+                    out = {"any": bool(self_collision.detect_any(bvh))}
+            finally:
+                if clock is not None:
+                    clock.release()
+            if clock is not None:
+                out["clk_calls"] = clock.calls
+                out["clk_max"] = clock.max_evals
             out["wl"] = {str(f): sorted(str(x) for x in wl) for f, wl in bvh.self_collision_whitelists_.items()}
             out["state"] = self._state(e)
-            out["pairs"] = self._pairs(e)
+            out["pairs"] = [] if self.budget else self._pairs(e)  # C19 mode needs the clock only
             return out
         raise ValueError("unknown op %r" % k)
